@@ -4,6 +4,8 @@ CONSTANTS
   Lens = {1}
   MaxSecs = 4
   Vcpus = {3}
+  Roms = {1}
+  Bases = {"high"}
 SPECIFICATION Spec
 INVARIANTS C04_OrderRomSectionsVmsas C04_AcceptedHaveMandatory Emit
 CHECK_DEADLOCK FALSE
